@@ -47,7 +47,7 @@ manifest = {
         "add_only": True,
     },
     "engines": [{"name": "govc", "path": "/verif/govc", "serves_properties": sorted(CLAIMED), "kind_free_text":
-                 "own verification-condition generator over go/ssa (x/tools v0.29.0) with Gobra-style //@ contracts kept in build-tag-guarded comment-only files inside /repo; obligations discharged by a z3-new/cvc5/z3 portfolio"}],
+                 "own verification-condition generator over go/ssa (x/tools v0.29.0) with Gobra-style //@ contracts kept in build-tag-guarded comment-only files inside /repo; obligations discharged by a z3-new/cvc5/z3 portfolio; C15 additionally re-checks two Lean 4 list lemmas (lemmas/Seg.lean) on every run"}],
     "checks": checks,
     "not_applicable": na,
     "notes": "See DESIGN.md. claims.json lists the contract-clause obligations each check must regenerate and discharge; known_findings.json lists recorded/fixed defects.",
